@@ -14,4 +14,4 @@ require (
 	golang.org/x/text v0.30.0 // indirect
 )
 
-replace github.com/wizenheimer/comet => /tmp/wt_C15
+replace github.com/wizenheimer/comet => /repo
